@@ -452,6 +452,84 @@ def run_group(payload: Dict[str, Any]) -> Dict[str, Any]:
     return rep.part()
 
 
+def run_reuse(payload: Dict[str, Any]) -> Dict[str, Any]:
+    """One Transaction handle reused: round 1 is interrupted right AFTER the pointer flip (durable, reported as an
+    interrupt), round 2 on the same handle then fails cleanly at every possible storage call.  The rollback of round 2
+    must not touch anything round 1 committed."""
+    from datashard import load_table
+
+    tier, seed = payload["tier"], payload["seed"]
+    rep = Report("C04", tier, seed, "fault_enumeration")
+    b = Bench("local")
+    try:
+        def scenario(inj: Injector) -> Tuple[str, str]:
+            b.restore()
+            b.attach(inj)
+            r1 = r2 = "?"
+            try:
+                t = load_table(b.location)
+                tx = t.new_transaction()
+                try:
+                    tx.begin()
+                    tx.append_data([row(7)])
+                    r1 = f"ok:{tx.commit()}"
+                except BaseException as e:  # noqa
+                    r1 = f"raise:{type(e).__name__}"
+                try:
+                    tx.begin()
+                    tx.append_data([row(8)])
+                    r2 = f"ok:{tx.commit()}"
+                except BaseException as e:  # noqa
+                    r2 = f"raise:{type(e).__name__}"
+            finally:
+                b.detach(inj)
+            return r1, r2
+
+        rec = Injector()
+        scenario(rec)
+        ptr = [i for i, c in enumerate(rec.calls) if _is_pointer_write(c)]
+        if len(ptr) != 2:
+            raise HarnessError(f"reuse scenario: expected 2 pointer writes, saw {len(ptr)}")
+        first = (ptr[0], "after", lambda: KeyboardInterrupt(), False)
+        rec2 = Injector([first])
+        scenario(rec2)
+        n2 = len(rec2.calls)
+        rep.add("storage_calls_numbered", n2)
+        for j in range(ptr[0] + 1, n2):
+            for kname, (when, fac, pers) in (("os_once", KINDS_LOCAL["os_once"]), ("interrupt_before", KINDS_LOCAL["interrupt_before"])):
+                inj = Injector([first, (j, when, fac, pers)])
+                r1, r2 = scenario(inj)
+                rep.add("evaluations")
+                rep.add("handle_reuse_cases")
+                st = reader.TableState(b.view)
+                rows = None if st.errors else st.current_rows()
+                r7, r8 = reader.canon_row(row(7)), reader.canon_row(row(8))
+                problems: List[str] = []
+                if st.errors:
+                    problems.append("a file referenced by a retained snapshot is missing: " + "; ".join(st.errors[:2]))
+                elif r7 not in rows:
+                    problems.append("round 1 was durable (pointer flipped) but its row is gone")
+                elif r2.startswith("ok:True") and r8 not in rows:
+                    problems.append(f"round 2 reported success but its row is missing")
+                elif r2.startswith("raise") and kname == "os_once" and r8 in rows:
+                    problems.append(f"round 2 raised after a storage fault although its commit took effect")
+                if not problems:
+                    problems += b.followup()
+                rep.nontrivial(("reuse", kname, r1, r2, _short(rec2.calls[j][1]) if j < len(rec2.calls) else "?"))
+                if problems:
+                    rep.violation({"backend": "local", "op": "handle_reuse_after_interrupted_commit", "style": "explicit",
+                                   "fault": f"interrupt_after+{kname}", "phase": "second_commit",
+                                   "problem": problems[0].split(":")[0][:80]},
+                                  {"plan": f"interrupt_after@{ptr[0]}+{kname}@{j}", "round1": r1, "round2": r2, "problems": problems,
+                                   "at_call": [list(rec2.calls[j])] if j < len(rec2.calls) else None, "payload": payload,
+                                   "outcome": [r1, r2], "state": "n/a"})
+        rep.sample({"group": "local/handle_reuse", "round1": "KeyboardInterrupt right after the pointer rename", "calls": n2})
+    finally:
+        b.close()
+    rep.add("groups")
+    return rep.part()
+
+
 def groups(tier: str, seed: int) -> List[Dict[str, Any]]:
     out = []
     for backend in ("local", "s3cas", "s3nocas"):
@@ -475,6 +553,8 @@ def run(tier: str, seed: int) -> Report:
         gs = gs[seed % len(gs):] + gs[:seed % len(gs)]
     for part in pmap("checks.c04", "run_group", gs):
         rep.merge(part)
+    for part in pmap("checks.c04", "run_reuse", [{"tier": tier, "seed": seed, "reuse": True}]):
+        rep.merge(part)
     rep.cov["exhaustive"] = not rep.caps
     rep.cov["rule"] = ("every storage-level call (local: os-level events; S3: requests) of each (backend, op, style) commit x "
                        "every applicable fault kind (thorough: + all ordered fault pairs in the commit region); non-trivial = "
@@ -492,6 +572,6 @@ def run(tier: str, seed: int) -> Report:
 def replay(case: Dict[str, Any]) -> Dict[str, Any]:
     d = case["detail"]
     p = dict(d["payload"])
-    part = run_group(p)
+    part = run_reuse(p) if p.get("reuse") else run_group(p)
     hit = [v for v in part["violations"].values() if v["detail"]["plan"] == d["plan"]]
     return {"violated": bool(hit), "matching": hit[:1]}
